@@ -315,7 +315,7 @@ impl Runner for R {
                             line
                         }
                         Err(msg) => {
-                            // D25: the builder numbers UUID types per snapshot, so one raw key can
+                            // D25 (repaired in Storage::new_builder): the builder numbered UUID types per snapshot, so one raw key could
                             // denote items of two UUID types with different sizes
                             let tag = if mixed && msg.contains("item sizes can't be mismatched") {
                                 "C13/sender-panics-on-renumbered-uuid-type"
